@@ -475,3 +475,70 @@ def _(c):
         c.ensure("along", c.eq(q1[1] - q0[1], Yd, scale=sc))
         c.ensure("rest", c.conj([c.eq(q1[3 + i], 0, scale=(None if c.symbolic else abs(v) + 1e-9), atol=1e-9) for i in range(3)]))
     _run_helper(c, build, expect)
+
+
+# ---------------------------------------------------------------------------------------------
+# against the difference of two Keplerian orbits
+# ---------------------------------------------------------------------------------------------
+
+def _grid_kep(tier, rng):
+    """target radius {6.8e6 (LEO), 2.66e7 (MEO), 4.2164e7 (GEO)} x 6 (quick: 3) seeded relative states (separation 0.2-3 km, 0-1.5 m/s) x dt in {0.1, 0.5, 1.3, -0.7} periods"""
+    for R in (6.8e6, 2.66e7, 4.2164e7):
+        for k in range(3 if tier == "quick" else 6):
+            for frac in (0.1, 0.5, 1.3, -0.7):
+                yield {"R": R, "seed": k, "frac": frac}
+
+
+@contract("C16", "vs_kepler", funcs=[f"{CWC}.propagate", f"{CWC}._propagate"], grid=_grid_kep, level="bounded")
+def _(c):
+    """bounded: for small separations the Clohessy-Wiltshire state agrees with the difference of two Keplerian orbits (independent two-body solution) expressed in the
+    target's rotating QSW frame to second order in the separation: the disagreement is below 12 d^2/R (1 + |n t|)^2 and falls by a factor 3 to 5.5 when the separation and
+    relative velocity are halved (where it is above the rounding floor)"""
+    from beyond.orbits import Orbit
+    from beyond.dates import Date, timedelta
+    from beyond.propagators.cw import ClohessyWiltshire
+    import beyond.frames.frames as fr
+    from beyond.constants import Earth
+    from contracts import twobody
+    mu = Earth.mu
+    R = c.real("R")
+    n = math.sqrt(mu / R ** 3)
+    T = 2 * math.pi / n
+    dt = c.real("frac") * T
+    rng = np.random.default_rng(40 + c.integer("seed"))
+    rho0 = rng.normal(size=3) * np.array([800.0, 1500.0, 600.0])
+    rhod0 = rng.normal(size=3) * np.array([0.5, 0.8, 0.4])
+    d0 = Date(2018, 5, 4)
+    # target: circular, in the x-y plane of an inertial frame, at (R, 0, 0) moving along +y
+    rt0, vt0 = np.array([R, 0.0, 0.0]), np.array([0.0, math.sqrt(mu / R), 0.0])
+    om = np.array([0.0, 0.0, n])
+
+    def kepler_relative(scale):
+        # at t0 the QSW axes coincide with the inertial ones
+        rc0 = rt0 + scale * rho0
+        vc0 = vt0 + scale * rhod0 + np.cross(om, scale * rho0)
+        rc, vc = twobody.propagate(rc0, vc0, dt, mu)
+        rt, vt = twobody.propagate(rt0, vt0, dt, mu)
+        q = rt / np.linalg.norm(rt)
+        w = np.cross(rt, vt)
+        w /= np.linalg.norm(w)
+        Q = np.array([q, np.cross(w, q), w])
+        rho = Q @ (rc - rt)
+        return np.concatenate([rho, Q @ (vc - vt) - np.cross(om, rho)])
+
+    def cw_relative(scale):
+        p = ClohessyWiltshire(R)
+        o = Orbit(list(scale * rho0) + list(scale * rhod0), d0, "cartesian", fr.Hill, p)
+        return np.asarray(o.propagate(d0 + timedelta(seconds=dt)), dtype=float)
+    errs = []
+    for scale in (1.0, 0.5):
+        k, w_ = kepler_relative(scale), cw_relative(scale)
+        # the Hill frame is curvilinear along the track: compare the radial / cross-track offsets and the along-track arc
+        errs.append(float(np.linalg.norm((k - w_)[:3])))
+    d = float(np.linalg.norm(rho0) + np.linalg.norm(rhod0) / n)
+    import os
+    if os.environ.get("PYVC_DEBUG"):
+        print("vs_kepler", R, c.real("frac"), errs, 12 * d * d / R * (1 + abs(n * dt)) ** 2)
+    c.ensure("second_order_bound", errs[0] <= 12 * d * d / R * (1 + abs(n * dt)) ** 2)
+    floor = 1e-4
+    c.ensure("second_order_rate", errs[0] <= floor or 3.0 <= errs[0] / max(errs[1], 1e-12) <= 5.5)
